@@ -90,14 +90,17 @@ InZone(z, nm) == \E i \in 1..Len(Zone(z)) : Zone(z)[i].n = nm
 ZoneOf(z, nm) == IF InZone(z, nm) THEN Zone(z)[CHOOSE i \in 1..Len(Zone(z)) : Zone(z)[i].n = nm] ELSE [n |-> nm, a |-> None, aaaa |-> None]
 
 Err == [k |-> "err", q4 |-> FALSE, q6 |-> FALSE]
-Ok(ents, canon, q4, q6) == IF ents = {} THEN [k |-> "err", q4 |-> q4, q6 |-> q6] ELSE [k |-> "ok", ents |-> ents, canon |-> canon, q4 |-> q4, q6 |-> q6]
+Ok(ents, canon, q4, q6) == IF ents = {} THEN [k |-> "err", q4 |-> q4, q6 |-> q6]
+                           ELSE [k |-> "ok", ents |-> ents, canon |-> canon, q4 |-> q4, q6 |-> q6, mayerr |-> FALSE]
 AnyCanon(l) == IF l.fl.canon THEN {"", l.node.n} ELSE {""}     \* no CNAME record: the standard says the node name, libevent says none
 
 Expected(l, z) ==
   IF l.node.k = "null" /\ l.serv.k = "null" THEN Err
   ELSE IF Port(l) < 0 THEN Err
   ELSE IF l.node.k = "null" THEN
-         Ok(Ents(l, {IF l.fl.passive THEN "0.0.0.0" ELSE "127.0.0.1"}, {IF l.fl.passive THEN "::" ELSE "::1"}), AnyCanon(l), FALSE, FALSE)
+         \* AI_CANONNAME without a node name is an error for some resolvers (EAI_BADFLAGS): admitted
+         [Ok(Ents(l, {IF l.fl.passive THEN "0.0.0.0" ELSE "127.0.0.1"}, {IF l.fl.passive THEN "::" ELSE "::1"}), AnyCanon(l), FALSE, FALSE)
+            EXCEPT !.mayerr = l.fl.canon]
   ELSE IF l.node.k = "num4" THEN Ok(Ents(l, {l.node.n}, {}), AnyCanon(l), FALSE, FALSE)
   ELSE IF l.node.k = "num6" THEN Ok(Ents(l, {}, {l.node.n}), AnyCanon(l), FALSE, FALSE)
   ELSE IF l.fl.numhost THEN Err
@@ -126,7 +129,7 @@ SecondAllowed(l1, l2, age) ==
 SetToSeq(S) == LET RECURSIVE R(_)
                    R(T) == IF T = {} THEN <<>> ELSE LET m == CHOOSE x \in T : TRUE IN <<m>> \o R(T \ {m})
                IN R(S)
-Out(e) == IF e.k = "ok" THEN [k |-> "ok", ents |-> SetToSeq(e.ents), canon |-> SetToSeq(e.canon), q4 |-> e.q4, q6 |-> e.q6]
+Out(e) == IF e.k = "ok" THEN [k |-> "ok", ents |-> SetToSeq(e.ents), canon |-> SetToSeq(e.canon), q4 |-> e.q4, q6 |-> e.q6, mayerr |-> e.mayerr]
           ELSE [k |-> "err", q4 |-> e.q4, q6 |-> e.q6]
 Init == cur = [k |-> "init"] /\ gstep = 0
 Gen1 == /\ ~CacheOn /\ gstep = 0 /\ gstep' = 1
